@@ -28,8 +28,9 @@ EXPRESSIBLE = {
     'type_argument': {'java', 'kotlin', 'groovy', 'scala'},
     'override': {'kotlin', 'scala'},        # java and groovy print no override marker
     'open': {'kotlin', 'scala'},            # kotlin: open, scala: final on the members of a class
+    'bound': {'java', 'kotlin', 'groovy', 'scala'},
 }
-KINDS = ['var_type', 'ret_type', 'diamond', 'final', 'type_argument', 'override', 'open']
+KINDS = ['var_type', 'ret_type', 'diamond', 'final', 'type_argument', 'override', 'open', 'bound']
 
 
 def strip_literals(text):
@@ -102,6 +103,10 @@ def user_class_names(p, t, acc=None):
             acc.add(x.name)
     rec(t)
     return acc
+
+
+def lang_token(lang, tok):
+    return tok
 
 
 def changed_lines(a, b):
@@ -209,6 +214,13 @@ def h_fidelity(eng, tier, lang):
     elif kind == 'type_argument':
         # an explicit type argument of an instantiation is replaced in place (what TypeOverwriting does)
         sites = [n for n in instantiations(q) if isinstance(n, ast.New) and not n.class_type.can_infer_type_args]
+    elif kind == 'bound':
+        # the bound of a type parameter of a class or of a function (nested functions are printed as lambdas without type parameters)
+        sites = []
+        for n in all_nodes(q):
+            if isinstance(n, (ast.ClassDeclaration, ast.FunctionDeclaration)):
+                # (a bound that is the top type is what some languages print for "no bound": no obligation there)
+                sites += [(n, t) for t in n.type_parameters if t.bound is None or t.bound != p0.bt_factory.get_any_type()]
     elif kind in ('override', 'open'):
         # the override / overridability modifier of a member of a class
         sites = [n for n in all_nodes(q) if isinstance(n, ast.FieldDeclaration) or
@@ -221,6 +233,9 @@ def h_fidelity(eng, tier, lang):
         eng.event('no-site')
         return obs + [Ob('skip', True)]
     d = sites[int(eng.fresh_int(0, len(sites) - 1, 'site'))]
+    owner = None
+    if kind == 'bound':
+        owner, d = d
     name = getattr(d, 'name', None) or getattr(d, 'func', None) or d.class_type.name
     carried_before = None
     ttype = None
@@ -240,6 +255,14 @@ def h_fidelity(eng, tier, lang):
         else:
             carried_before = not d.can_infer_type_args
             d.can_infer_type_args = carried_before
+    elif kind == 'bound':
+        carried_before = d.bound is not None
+        btype = p0.bt_factory.get_string_type()
+        if carried_before:
+            btype = d.bound
+            d.bound = None
+        else:
+            d.bound = btype
     elif kind == 'override':
         carried_before = bool(d.override)
         d.override = not d.override
@@ -272,6 +295,18 @@ def h_fidelity(eng, tier, lang):
     case.update(removed_lines=minus[:3], added_lines=plus[:3])
     obs.append(Ob('toggle-visible|%s|%s' % (kind, lang), base != other, case))
     if base != other:
+        if kind == 'bound':
+            # the head of the declaring class / function changes and mentions the type parameter; the bound's name is printed iff carried
+            ok = bool(minus or plus) and all(has_token(l, name) for l in (minus + plus)[:1])
+            obs.append(Ob('toggle-local|%s|%s' % (kind, lang), ok, dict(case, owner=getattr(owner, 'name', None))))
+            toks = user_class_names(p0, btype) or ({btype.name} if getattr(btype, 'name', None) and not btype.is_type_var() else set())
+            with_text, without_text = (base, other) if carried_before else (other, base)
+            for tok in sorted(toks):
+                tk = lang_token(lang, tok)
+                cw = len(re.findall(r'(?<![A-Za-z0-9_])%s(?![A-Za-z0-9_])' % re.escape(tk), with_text))
+                co = len(re.findall(r'(?<![A-Za-z0-9_])%s(?![A-Za-z0-9_])' % re.escape(tk), without_text))
+                obs.append(Ob('bound-printed-iff-carried|%s' % lang, cw > co,
+                              dict(case, owner=getattr(owner, 'name', None), bound_token=tk, occurrences_with=cw, occurrences_without=co)))
         if kind in ('override', 'open'):
             # exactly the line that declares the member changes; an override marker is printed iff the program carries it
             ok = len(minus) == 1 and len(plus) == 1 and has_token(minus[0], name) and has_token(plus[0], name)
